@@ -12,6 +12,17 @@ sys.path.insert(0, os.path.dirname(os.path.dirname(os.path.abspath(__file__))))
 from harness import core  # noqa: E402
 
 
+def setup() -> int:
+    """Regenerate Gen/*.v from /repo and build the whole development (full .vo)."""
+    from harness import translators
+    errs = translators.generate_all(core.REPO, core.COQ, fallback=True)
+    for e in errs:
+        print("translator:", e)
+    ok, log = core.make([], timeout=3000)
+    print(log[-3000:])
+    return 0 if ok else 1
+
+
 def main() -> int:
     ap = argparse.ArgumentParser()
     ap.add_argument("prop")
@@ -20,6 +31,8 @@ def main() -> int:
     args = ap.parse_args()
     seed = int(os.environ.get("VERIF_SEED", "0") or 0)
     pid = args.prop.upper()
+    if pid == "SETUP":
+        return setup()
     mod = importlib.import_module(f"harness.props.{pid.lower()}")
     if args.replay:
         return mod.replay(args.replay)
